@@ -362,7 +362,11 @@ def main(argv=None):
         for b in bounded:
             for kf in b.get('known_findings', []):
                 print('KNOWN-FINDING: property=%s %s [bounded:%s]' % (prop, kf, b['script']))
-            if b.get('exit') == 1:
+            if b.get('exit') == 1 and 'error' in b and not b.get('violations'):
+                # exit status 1 WITHOUT a report: the script crashed (a Python traceback also exits with 1) -- a tool failure, never a violation
+                print('BOUNDED stand-in %s crashed: %s' % (b['script'], str(b.get('error'))[-600:]))
+                if exit_code == 0: exit_code = 3
+            elif b.get('exit') == 1:
                 for v in b.get('violations', [])[:5]:
                     print('bounded stand-in failure: %s' % json.dumps(v)[:500])
                 print('VIOLATION property=%s replay=%s' % (prop, b['report']))
